@@ -360,6 +360,10 @@ def stepEffect (st : Store) : List String → Option (Effect × String)
   | ["protated", i, a] => do
     let i ← parseNat? i; let g ← st[i]?; let a ← parseRat? a
     pure (Effect.push (g.polarRotate a), s!"ok {st.length}")
+  | ["setw", i, w] => do
+    -- `grid.weights = w` (a scalar or an array; `-` = `None`: back to the automatic weights)
+    let i ← parseNat? i; let g ← st[i]?; let w ← parseWeights? w
+    pure (Effect.update i (g.setWeights w), "ok")
   | ["mat", i] => do
     let i ← parseNat? i; let g ← st[i]?
     match g.materialize with
@@ -513,7 +517,7 @@ def slotArgs : List String → List String
   | op :: i :: _ =>
     if op ∈ ["set", "copy", "todict", "rtdict", "rtdictas", "scale", "scaled", "shift", "shifted", "shiftf", "shiftedf",
              "absorbs", "shiftvals", "reverse", "reversed", "reverseold", "rotate", "rotated", "protate", "protated",
-             "mat", "fft", "super", "sub", "show", "points", "wlist", "wlistold", "aspolar", "ascart", "image", "size",
+             "mat", "setw", "fft", "super", "sub", "show", "points", "wlist", "wlistold", "aspolar", "ascart", "image", "size",
              "hash", "eqrow", "pshift", "pshifted", "hashl", "same"] then [i] else []
   | _ => []
 
